@@ -10,7 +10,7 @@ SPECS = {"scale": (ScaleSpec(['do']), "harness", "runner"), "pardo": (ParDoSpec(
 
 
 def run(ctx):
-    proofs_ok = ctx.check_proofs(PROP_FILES, extra_targets=["theories/Conc/ParDo.vo"])
+    proofs_ok = ctx.check_proofs(PROP_FILES, extra_targets=["theories/Conc/ParDo.vo", "theories/Conc/ParDoMatcherComplete.vo"])
     ok, out, exe = vlib.build_runner(module="harness_pardo", exe_name="runner-pardo")
     if not ok:
         ctx.violation("harness-build", "the harness does not build against the current tree: " + out[-1500:],
